@@ -247,7 +247,7 @@ type vNodeSpec struct {
 	ids      []string // universe of node ids (members are chosen among them)
 	maxLog   int      // entries after the placeholder
 	states   []State  // allowed states (case split)
-	members  string   // "none": empty configuration; "all-voters"; "any": every member/voter subset containing self or not
+	members  string   // "none": empty configuration; "all-voters"; "sole-voter": self votes, the others are non-voting members; "any": every member/voter subset containing self or not
 	dataLen  int      // bytes per entry payload
 	anyTypes bool     // entry types symbolic over {NoOp, Operation}; otherwise all Operation
 	snap     bool     // when the log has a compacted prefix, a visible snapshot labelled with it exists (SnapInv)
@@ -431,6 +431,9 @@ func vBuildNode(spec vNodeSpec) *vNode {
 				if member {
 					voter = vNondetBool(name + ".voter." + id)
 				}
+			}
+			if spec.members == "sole-voter" {
+				voter = id == spec.self // the others are non-voting members
 			}
 			if member {
 				c.Members[id] = "addr-" + id
